@@ -175,8 +175,12 @@ class AirTouchSocket(Generic[comms.Hdr]):
     async def close(self) -> None:
         """Close the socket to the AirTouch."""
         if self.is_open:
-            await self._disconnect()
+            # Mark the socket as closed first so that connection attempts that
+            # are scheduled or still in progress don't connect after closing.
             self.is_open = False
+            # Messages that were never sent must not go out on a later open.
+            self._message_queue.clear()
+            await self._disconnect()
 
     async def send(self, message: comms.Message, retry_policy: RetryPolicy) -> None:
         """Send a message to the AirTouch.
@@ -294,6 +298,10 @@ class AirTouchSocket(Generic[comms.Hdr]):
         task.add_done_callback(discard_task)
 
     async def _connect(self) -> None:
+        if not self.is_open:
+            _LOGGER.debug("_connect ignored. Socket is closed")
+            return
+
         if self.is_connected or self._connecting:
             _LOGGER.debug("_connect ignored. Already connected or connecting")
             return
@@ -306,6 +314,11 @@ class AirTouchSocket(Generic[comms.Hdr]):
             self._reader, self._writer = await asyncio.open_connection(
                 host=self.host, port=self.port
             )
+
+            if not self.is_open:
+                # Closed while the connection was being established.
+                await self._disconnect()
+                return
 
             self.is_connected = True
             _LOGGER.debug("Connected to %s:%d", self.host, self.port)
@@ -320,7 +333,7 @@ class AirTouchSocket(Generic[comms.Hdr]):
         finally:
             self._connecting = False
 
-        if not self.is_connected:
+        if self.is_open and not self.is_connected:
             # Connection failed, so retry after a small delay
             self._schedule(self._connect(), delay=_CONNECT_RETRY_DELAY)
 
